@@ -35,6 +35,8 @@ def scenario(rng, sid, focus, big=False):
                 sc["initFail"] = rng.randint(1, sc["comps"])
     if focus in ("C14", "mix"):
         n = rng.randint(0, 12 if big else 5)
+        if rng.random() < 0.12:
+            n = rng.randint(9, 24)      # more closers than any plausible worker-pool bound
         sc["closers"] = [dict(cls="un", ord=0, fail=rng.random() < 0.4, doc="") for _ in range(n)]
         co = list(range(1, n + 1)); rng.shuffle(co)
         sc["closeOrder"] = co
